@@ -37,8 +37,11 @@ def cases(tier):
     return 1600 if tier == "quick" else 160000
 
 
+SIG_INDEX_TWICE = "C01/compound-index-assignment-evaluates-index-twice"
+
+
 def cfg(hazards):
-    return gen.Cfg(p_confuse=1, hazards=hazards)
+    return gen.Cfg(p_confuse=1, effectful_index=True, hazards=hazards)
 
 
 def strategy(hazards):
@@ -123,6 +126,14 @@ def run_case(case, ctx):
         r = ctx.worker("rel").run(src)
         runs += 1
         fail = compare_model(PROPERTY, res, r, src, "release build")
+    if "[ix" in src or "[ ix" in src:
+        labels.append("compound-index-assignment")
+    if fail is not None and "compound-index-assignment" in labels:
+        # is this the known 'index evaluated twice' defect? then the vm agrees with the evaluator run in that mode
+        res2, _why = run_model(prog, lines, index_twice=True)
+        if res2 is not None and compare_model(PROPERTY, res2, dbg.run(src), src, "twice") is None and \
+                compare_model(PROPERTY, res2, ctx.worker("rel").run(src), src, "twice") is None:
+            fail.sig = SIG_INDEX_TWICE
     return Outcome(key=src, nontrivial=nontrivial, labels=labels, failure=fail, sample=short(src), runs=runs)
 
 
